@@ -148,6 +148,21 @@ def arange(*a, **k):
         ln = z3.If(start > stop, start - stop, z3.IntVal(0))
         return Tensor((z3.simplify(ln),), lambda idx: start - idx[0])
     step = _lift(a[2]) if len(a) > 2 else z3.IntVal(1)
+    import builtins as _b
+
+    if _b.any(e.sort() == z3.RealSort() for e in (start, stop, step)):
+        # non-integer arange: the length is ceil((stop - start) / step) evaluated in FLOATING POINT - when the quotient
+        # is mathematically an integer it may come out one larger (NumPy / JAX document this and recommend linspace)
+        Assumed.note("jnp.arange with non-integer arguments: length = ceil((stop-start)/step) computed in floating point: exact, or one more when the quotient is mathematically an integer")
+        from ..sym import engine, fresh
+        from ..tensor import _toreal
+
+        st, sp, se = _toreal(start), _toreal(stop), _toreal(step)
+        q = (sp - st) / se
+        exact = -z3.ToInt(-q)
+        ln = fresh("arange_len", z3.IntSort())
+        engine().assume(z3.And(ln >= 0, ln >= exact, ln <= exact + 1, z3.Implies(ln == exact + 1, z3.ToReal(z3.ToInt(q)) == q)))
+        return Tensor((ln,), lambda idx: st + se * z3.ToReal(idx[0]))
     # length = ceil((stop-start)/step) for step > 0 (integers)
     ln = z3.If(stop > start, (stop - start + step - 1) / step, z3.IntVal(0))
     return Tensor((z3.simplify(ln),), lambda idx: start + step * idx[0])
